@@ -20,6 +20,8 @@ pub struct Target {
     pub arm: Option<String>,
     /// `ty=<type>`: the type the function's single generic parameter stands for in that arm
     pub arm_ty: Option<String>,
+    /// `abstract=f,g`: calls of these functions become calls of function PARAMETERS of the translated definition
+    pub abstract_fns: Vec<String>,
 }
 
 #[derive(PartialEq, Clone, Copy)]
@@ -74,9 +76,10 @@ fn parse_targets(text: &str) -> Vec<Group> {
         let fuel = toks.iter().any(|t| *t == "fuel");
         let arm = toks.iter().find_map(|t| t.strip_prefix("arm=")).map(|s| s.to_string());
         let arm_ty = toks.iter().find_map(|t| t.strip_prefix("ty=")).map(|s| s.to_string());
+        let abstract_fns: Vec<String> = toks.iter().find_map(|t| t.strip_prefix("abstract=")).map(|s| s.split(',').map(|x| x.to_string()).collect()).unwrap_or_default();
         let g = groups.last_mut().expect("target before any @group");
         let group = g.name.clone();
-        g.targets.push(Target { group, rust_path, lean_name, kind, extern_fuel: fuel, arm, arm_ty });
+        g.targets.push(Target { group, rust_path, lean_name, kind, extern_fuel: fuel, arm, arm_ty, abstract_fns });
     }
     groups
 }
